@@ -43,6 +43,7 @@ pub fn requirements(tier: Tier) -> Vec<(&'static str, u64)> {
         ("documented-panic:typed-key-invalid", 100),
         ("documented-panic:display-invalid-type", 100),
         ("empty-checksum-serialised", 100),
+        ("large-builder-values", 32),
     ]
 }
 
@@ -514,6 +515,32 @@ pub fn run(ctx: &mut Ctx) {
         let ms = (thread_cpu_ns() - t0) / 1_000_000;
         ctx.st.dyn_counters.insert(format!("large-input-cpu-ms:{name}"), ms);
         ctx.st.nontrivial(fnv(name.as_bytes()));
+    }
+    // large field values through the builder (format, re-parse of the string form, rebuild)
+    if ctx.worker < 8 {
+        let size = if ctx.quick() { 256 << 10 } else { 1 << 20 };
+        let fills = ["a", "/", "%", "é", "😀", "@?#", " ", "a/../"];
+        let fill = fills[ctx.worker % fills.len()].repeat(size / fills[ctx.worker % fills.len()].len());
+        for field in 0..4 {
+            let h = Hist {
+                ty: "npm".into(),
+                name: if field == 0 { fill.clone() } else { "n".into() },
+                calls: match field {
+                    1 => vec![hist::Call::Ns(fill.clone())],
+                    2 => vec![hist::Call::Ver(fill.clone()), hist::Call::Qual("k".into(), fill.clone())],
+                    3 => vec![hist::Call::Sub(fill.clone())],
+                    _ => vec![],
+                },
+            };
+            watch(ctx.worker, GEN_HIST, 1_000_000 + field);
+            let f = exercise_hist_all(&h, false).or_else(|| exercise_hist_all(&h, true));
+            unwatch(ctx.worker);
+            ctx.st.evaluations += 1;
+            ctx.st.count("large-builder-values");
+            if let Some(f) = f {
+                ctx.st.violation("C06.panic", format!("C06.panic:{}:{}", f.kind, f.tag), f.detail.chars().take(500).collect(), json!({"kind": "history", "typed": false, "history": h}));
+            }
+        }
     }
     // builder histories on every type parameter
     let mut r = ctx.rng("c06.g4");
